@@ -319,16 +319,17 @@ PROPS['C13'] = {
 KEYS_DRV = {'file': 'native/keys_roundtrip.rs', 'attach': 'src/crypto/common.rs', 'test': 'printed_keys_are_accepted'}
 PROPS['C18'] = {
     'level': 'proof',
-    'level_text': 'Proof (Verus, unbounded lengths) that the text codec is value-exact: base62_add_mult_16, to_base62 and from_base62 verbatim against positional-value specs (text value == big-endian byte value, canonical forms, first bad character), and that Crypto::{decode_key, parse_public_key, parse_private_key, parse_keypair} accept the text of EVERY 32-byte string (also with leading zero bytes) and hand exactly those bytes to the key constructor. ring key objects and PBKDF2 are uninterpreted functions.',
+    'level_text': 'Proof (Verus, unbounded lengths) that the text codec is value-exact: base62_add_mult_16, to_base62 and from_base62 verbatim against positional-value specs (text value == big-endian byte value, canonical forms, first bad character), and that Crypto::{decode_key, parse_public_key, parse_private_key, parse_keypair} accept the text of EVERY 32-byte string (also with leading zero bytes) and hand exactly those bytes to the key constructor; Crypto::{generate_keypair, keypair_from_password}: the printed pair is the text of a 32-byte seed and of its public key, and with a password the seed is PBKDF2 of the whole password in both functions (same password, same keys). ring key objects and PBKDF2 are uninterpreted functions.',
     'verus': [{'unit': 'base62', 'fns': ['(?!lemma_roundtrip_any_body).*']}],
-    'native_search': {r'base62::Crypto::.*': KEYS_DRV},
+    'native_search': {r'base62::Crypto::(keypair_from_password|generate_keypair)': {'file': 'native/keys_password.rs', 'attach': 'src/crypto/common.rs', 'test': 'password_keys_are_deterministic_and_use_the_whole_password'},
+                      r'base62::Crypto::.*': KEYS_DRV},
     'trusted': [
         'ring: Ed25519KeyPair::from_seed_unchecked / from_seed_and_public_key as uninterpreted functions of the seed (accept exactly 32-byte seeds; public key is a function of the seed)',
         'std contracts written in the unit: <[T]>::reverse, <[T]>::clone_from_slice, String::with_capacity; R5 pinned statement `buf[0..buflen].reverse();`',
         'str::chars / String::push / Vec specs of vstd',
     ],
     'not_decided': [
-        'generate_keypair / keypair_from_password determinism (same PBKDF2 term) - reading only: both call pbkdf2::derive(PBKDF2_HMAC_SHA256, 4096, SALT, password) and Ed25519KeyPair::from_seed_unchecked; ring/pbkdf2 calls are not typed by Verus',
+        'PBKDF2 itself and Ed25519 key derivation (ring) are uninterpreted functions; generate_keypair / keypair_from_password are under contract with the pbkdf2::derive call as a pinned statement (the seed is PBKDF2 of ALL bytes of the password, the same term in both)',
         'that nodes sharing a password complete a handshake (C01/C05)',
     ],
 }
